@@ -91,4 +91,11 @@ theorem add_pure {α : Type} (o : Ops α) (nn : Nat) (h h2 : Heap α)
       (VecZnx.add o nn h2 res rsz rsl a asz asl b bsz bsl).mem[res + i * rsl + c]? :=
   C13.add_call_indep o nn h h2 res rsz rsl a asz asl b bsz bsl res rsl a asl b bsl hsl hres ha hb hsl hres2 ha hb sa sb
 
+/-- non-vacuity floor of the Gen obligations above: the extraction found the convenience-API caches and the functions
+    with static state (an extraction that returns nothing would make `caches_keyed` and `all_static_state_modelled` vacuous) -/
+theorem extraction_nonvacuous :
+    15 ≤ Gen.Caches.rows.length ∧ 15 ≤ staticFns.length ∧
+    (Gen.Caches.rows.any fun r => r.name == "reim_to_znx64_simple") = true ∧
+    staticFns.contains "reim_fft_simple" = true := by decide +kernel
+
 end Spq.C15
